@@ -16,7 +16,7 @@ func init() {
 		ID: "C03", Level: "exploration",
 		Rule: "two families. (a) sequential histories as in C02 (direct writes and transactions with all endings, copy-on-write cache capacity drawn from {default,1,2,3,8,64}) in which snapshots are taken at drawn points - Router.Iter(), Router.Txn(false), Txn.Snapshot() and Txn.Iter() between two writes of an open write transaction, a context held open after Lookup - and every live snapshot is re-observed in full (Len, Has, Route, all iterators, Reverse and Lookup with parameters on probe requests) after every later operation, commit or abort and compared with its own first observation (self-consistency, no model involved); the first observation must also equal the model at that moment and the router must keep following the model (writes unaffected by snapshots). (b) concurrent: holder tasks take a snapshot (Iter, read-only Txn, View, Lookup context, a parked request handler) and re-observe it between the steps of 1-2 writer tasks under the seeded scheduler; in HB mode the same schedules run under the race detector, where any store into memory reachable from a published root races with the parked reader. Non-trivial: a snapshot was re-observed after at least one later effective write (a: inside the same transaction or after a commit); distinct = hash of (history, snapshot points) or (programs, schedule).",
 		Run:  runC03, HBRun: runC03HB,
-		Quick: 12000, Thorough: 1000000, QuickHB: 4000, ThoroughHB: 200000,
+		Quick: 20000, Thorough: 4000000, QuickHB: 6000, ThoroughHB: 800000,
 		Real: commonReal, Stub: commonStub,
 		Domain: []string{"pools as in C02; at most 4 live snapshots at a time; transactions touching more nodes than the copy cache holds are reached by shrinking the cache (verif knob), not by 4096-node transactions"},
 	})
